@@ -1,4 +1,5 @@
 import GrinVerif.Model.Msg
+import GrinVerif.Gen.CodecTimeouts
 /-! # The `Codec` state machine (model of `p2p/src/codec.rs`) and the handshake decisions
 (`p2p/src/handshake.rs`)
 
@@ -17,9 +18,16 @@ the guard `*bytes_left == 0 || *items_left == 0` in front of it makes 0 unreacha
 `alloc` counts the bytes requested by `buffer.reserve(to_read)` and by the two
 `Vec::with_capacity(min(HEADER_BATCH_SIZE, items_left))`.
 
-Timeouts are not modelled: a fragment list that ends is an end-of-stream (`Error::Connection`). -/
+The untimed machine (`read` / `run`) has no clock: a fragment list that ends is an end-of-stream
+(`Error::Connection`).  The **timed** machine (`readT` / `runT`, second half of the file) runs the
+same `stepState` over a stream in which every byte carries the time it lets the reader wait
+(`TStream`); the `read_exact` of a fill uses the read timeout `set_stream_timeout` installs for the
+current state (`ioTimeout`, table regenerated from `codec.rs` into `Gen/CodecTimeouts.lean`): a wait
+is tolerated iff it is shorter than that timeout, otherwise the fill fails with `TimedOut`, the bytes
+it had already pulled are lost (`buffer.truncate(pre_len)`), and the reader thread of `conn.rs`
+carries on (`try_break!` maps `TimedOut` / `WouldBlock` to "nothing yet"). -/
 namespace GV.Codec
-open GV GV.Ser GV.Dec GV.Msg GV.Gen.Msg
+open GV GV.Ser GV.Dec GV.Msg GV.Gen.Msg GV.Gen.CodecTimeouts
 
 /-- `p2p::Error` classes the codec returns -/
 inductive Err
@@ -29,6 +37,9 @@ inductive Err
   | conn
   | badMessage
   | unexpectedMessage
+  /-- `Error::Connection(e)` with `e.kind()` `WouldBlock` / `TimedOut`: the read timeout expired
+  (timed machine only) -/
+  | timedOut
 deriving DecidableEq, Repr
 
 def Err.name : Err → String
@@ -36,6 +47,7 @@ def Err.name : Err → String
   | .conn => "Connection"
   | .badMessage => "BadMessage"
   | .unexpectedMessage => "UnexpectedMessage"
+  | .timedOut => "TimedOut"
 
 /-- `msg::Message` as far as the framing is concerned: `B` = decoded body, `H` = decoded header item -/
 inductive Message (B H : Type)
@@ -247,6 +259,121 @@ def run {B H σ : Type} (env : Env B H) (ops : SockOps σ) (attach : Message B H
         (m :: ms, e, cf, sf)
     | r => ([], r, o.codec, o.sock)
 
+/-! ## read timeouts (`Codec::set_stream_timeout`) and the codec over a stream with a clock -/
+
+/-- which variant of `enum State` (the generated `StateKind` lists the variants of the source) -/
+def State.kind {H : Type} : State H → StateKind
+  | .none => .sNone
+  | .header _ => .sHeader
+  | .blockHeaders _ _ _ => .sBlockHeaders
+  | .attachment _ => .sAttachment
+
+/-- `HEADER_IO_TIMEOUT` / `BODY_IO_TIMEOUT` in milliseconds -/
+def classMs : TimeoutClass → Nat
+  | .header => HEADER_IO_TIMEOUT_MS
+  | .body => BODY_IO_TIMEOUT_MS
+
+/-- `Codec::set_stream_timeout`: the read timeout (ms) in force during the `read_exact` of a fill
+in state `st` -/
+def ioTimeout {H : Type} (st : State H) : Nat := classMs (timeoutClass st.kind)
+
+/-- a wait of `d` ms without a byte arriving is tolerated in state `st` iff `d < timeout(st)` -/
+def tolerated {H : Type} (st : State H) (d : Nat) : Bool := decide (d < ioTimeout st)
+
+/-- a byte stream with its arrival gaps: `(w, b)` = byte `b` becomes readable `w` ms after the byte
+before it did (or after the reader started to wait for it, whichever is later) -/
+abbrev TStream := List (Nat × Nat)
+
+/-- how a peer writes: `(d, f)` = pause `d` ms, then write fragment `f` in one piece -/
+abbrev Sched := List (Nat × Bytes)
+
+/-- the first byte of a fragment carries the pause, the others arrive with it -/
+def tagFrag (d : Nat) : Bytes → TStream
+  | [] => []
+  | b :: r => (d, b) :: r.map fun x => (0, x)
+
+/-- the timed stream a schedule produces (fragments are non-empty TCP segments; an empty one is
+dropped together with its pause) -/
+def tagSched : Sched → TStream
+  | [] => []
+  | (d, f) :: s => tagFrag d f ++ tagSched s
+
+inductive RxT
+  /-- all `n` bytes arrived: the bytes and the stream after them -/
+  | got (x : Bytes) (s : TStream)
+  /-- a wait reached the timeout: `read_exact` fails with `WouldBlock`, what it had pulled so far is
+  gone from the stream, the byte it waited for is `timeout` ms closer -/
+  | timeout (s : TStream)
+  /-- end of stream -/
+  | eof
+deriving DecidableEq, Repr
+
+/-- `read_exact(n)` under `set_read_timeout(T)`: every `read` call waits at most `T` for the next byte -/
+def rxT (T : Nat) : Nat → TStream → RxT
+  | 0, s => .got [] s
+  | _+1, [] => .eof
+  | n+1, (w, b) :: s =>
+    if T ≤ w then .timeout ((w - T, b) :: s)
+    else match rxT T n s with
+      | .got x s' => .got (b :: x) s'
+      | .timeout s' => .timeout s'
+      | .eof => .eof
+
+inductive FillT (H : Type)
+  | ok (c : Codec H) (s : TStream)
+  | timeout (s : TStream)
+  | eof
+
+/-- `fill` with the clock: `set_stream_timeout()` (timeout of the *current* state), then `read_exact` -/
+def fillT {H : Type} (c : Codec H) (s : TStream) (nl : Nat) : FillT H :=
+  if nl - c.buffer.length > 0 then
+    match rxT (ioTimeout c.state) (nl - c.buffer.length) s with
+    | .got x s' => .ok { c with buffer := c.buffer ++ x } s'
+    | .timeout s' => .timeout s'
+    | .eof => .eof
+  else .ok c s
+
+/-- the `loop` of `read_inner` over a timed stream.  A timeout returns `Error::Connection(WouldBlock)`
+with the buffer truncated to what it held before this fill; the state reached so far stays
+(`self.state` is mutated in place) -/
+def readLoopT {B H : Type} (env : Env B H) : Nat → Codec H → TStream → Nat → Nat → ReadOut B H TStream
+  | 0, c, s, br, al => { res := .hang, bytesRead := br, alloc := al, codec := c, sock := s }
+  | fuel+1, c, s, br, al =>
+    let nl := nextLen env c.state
+    let toRead := nl - c.buffer.length
+    match fillT c s nl with
+    | .eof => { res := .err .conn, bytesRead := br, alloc := al + toRead, codec := c, sock := [] }
+    | .timeout s' => { res := .err .timedOut, bytesRead := br, alloc := al + toRead, codec := c, sock := s' }
+    | .ok c1 s1 =>
+      match stepState env c1 nl with
+      | .inl (r, c2, a) =>
+        { res := r, bytesRead := br + toRead, alloc := al + toRead + a, codec := c2, sock := s1 }
+      | .inr (c2, a) => readLoopT env fuel c2 s1 (br + toRead) (al + toRead + a)
+
+/-- `Codec::read` over a timed stream -/
+def readT {B H : Type} (env : Env B H) (c : Codec H) (s : TStream) : ReadOut B H TStream :=
+  readLoopT env READ_FUEL c s 0 0
+
+/-- the reader thread of `conn::poll` over a timed stream: as `run`, and `try_break!` turns
+`TimedOut` / `WouldBlock` into "nothing yet" (`continue`) -/
+def runT {B H : Type} (env : Env B H) (attach : Message B H → Option Nat) :
+    Nat → Codec H → TStream → List (Message B H) × Res B H × Codec H × TStream
+  | 0, c, s => ([], .hang, c, s)
+  | fuel+1, c, s =>
+    let o := readT env c s
+    match o.res with
+    | .msg m =>
+      match nextCodec attach o.codec m with
+      | none => ([m], .panic .assertion, o.codec, o.sock)
+      | some c' =>
+        let (ms, e, cf, sf) := runT env attach fuel c' o.sock
+        (m :: ms, e, cf, sf)
+    | .err e =>
+      if e = .timedOut then runT env attach fuel o.codec o.sock
+      else ([], .err e, o.codec, o.sock)
+    | .panic st => ([], .panic st, o.codec, o.sock)
+    | .hang => ([], .hang, o.codec, o.sock)
+
 /-! ## `msg::read_message` (used by the handshake, straight on the `TcpStream`) -/
 
 /-- result of `read_message`: value or error class, bytes consumed from the stream, bytes requested
@@ -293,10 +420,15 @@ inductive HsErr
   | connectionClose
 deriving DecidableEq, Repr
 
-/-- `next_nonce`: `push_back`, then `pop_front` when the ring has reached `NONCES_CAP` -/
+/-- `next_nonce`: `push_back`, then `pop_front` when the ring has reached `NONCES_CAP` (so the ring
+never holds more than `NONCES_CAP - 1` nonces once the call returns) -/
 def pushNonce (ring : List Nat) (n : Nat) : List Nat :=
   let r := ring ++ [n]
   if r.length ≥ NONCES_CAP then r.drop 1 else r
+
+/-- the ring of one long-lived `Handshake` after the outbound attempts that drew the nonces `ns`
+(oldest first), starting from `Handshake::new` -/
+def ringAfter (ns : List Nat) : List Nat := ns.foldl pushNonce []
 
 /-- `Handshake::accept` after the `Hand` was read: genesis, own nonce, negotiated version, deny list -/
 def acceptDecision (ourGenesis : Bytes) (ourVersion : Nat) (nonces : List Nat) (denied : Bool) (h : Hand) :
